@@ -739,7 +739,7 @@ func TestVerifC18Big(t *testing.T) {
 		prunes [][2]int64 // retain, crash
 	}
 	cases := []big{
-		{1100, [][2]int64{{1050, -1}}},                       // F9: crash points between the two batches
+		{1100, [][2]int64{{1050, -1}}},                        // F9: crash points between the two batches
 		{1100, [][2]int64{{1001, 1}, {1001, -1}, {1100, -1}}}, // crash after the first descriptor write, then again
 	}
 	if vg.Thorough() {
